@@ -15,7 +15,7 @@ var fileMutators = map[string][]int{
 }
 
 func checkC20(r *Run) {
-	r.Explain = "C20: (R1) wallet files, key-value storage files and the peer list are written only through file.SaveBinary (directly or via SaveJSON); every other truncating/replacing file primitive in the node packages is enumerated in a reviewed table (database backup copy, TLS cert generation, profiling, log append, …); (R2) SaveBinary replaces the target atomically: success implies the full content was written, synced and closed to a temporary sibling path and then renamed over the target; the target path itself is never opened for writing, truncated, removed or renamed away; writeFileSync propagates Write/short-write/Sync/Close errors and always closes; IsWritable does not truncate; (R3) loaders treat an unreadable file as an error (no silent data loss)."
+	r.Explain = "(R4) leftovers of an interrupted save are never loaded: the wallet loader reads only regular files whose name ends with the wallet extension and the temporary file of SaveBinary is named target+\".tmp.\"+hash; C20: (R1) wallet files, key-value storage files and the peer list are written only through file.SaveBinary (directly or via SaveJSON); every other truncating/replacing file primitive in the node packages is enumerated in a reviewed table (database backup copy, TLS cert generation, profiling, log append, …); (R2) SaveBinary replaces the target atomically: success implies the full content was written, synced and closed to a temporary sibling path and then renamed over the target; the target path itself is never opened for writing, truncated, removed or renamed away; writeFileSync propagates Write/short-write/Sync/Close errors and always closes; IsWritable does not truncate; (R3) loaders treat an unreadable file as an error (no silent data loss)."
 	r.NotDec = "directory fsync / power-loss durability beyond the ordered-write crash model; behaviour of rename on non-POSIX file systems"
 	// R1: enumerate mutator call sites
 	reviewed := map[string]string{
@@ -142,4 +142,28 @@ func checkC20(r *Run) {
 	}
 	// R3 loaders
 	r.RequireOnSuccess("C20-R3", "wallet.Load", req("a wallet file that cannot be read/parsed is an error", "ok(*)"))
+	// R4: what a crash can leave behind (SaveBinary's temporary file, backups) is never taken for a wallet at
+	// start-up: the loader reads only regular files whose name ENDS with the wallet extension, and the temporary
+	// name is the target name plus a non-empty suffix
+	const NAME = "iface:fs.FileInfo.Name(ioutil.ReadDir($0.config.WalletDir)#0[i])"
+	r.RequireAtCall("C20-R4", "wallet.Service.loadWallets", "wallet.Service.Load", 1,
+		req("only names ending in the wallet extension are loaded", `strings.HasSuffix(`+NAME+`, "wlt")`),
+		req("only regular files are loaded", "fs.FileMode.IsRegular(iface:fs.FileInfo.Mode(ioutil.ReadDir($0.config.WalletDir)#0[i]))"))
+	if fn := r.fn("C20-R4", "wallet.Service.loadWallets"); fn != nil {
+		ff := r.P.Facts(fn)
+		for _, cs := range r.CallSites(fn, "wallet.Service.Load") {
+			t := ff.Term(cs.Common().Args[1])
+			r.Check("C20-R4", "wallet.Service.loadWallets: the file loaded is the directory entry that passed the name test", r.P.Pos(cs.Pos()), t == "filepath.Join([$0.config.WalletDir, "+NAME+"])", t)
+		}
+	}
+	if fn := r.fn("C20-R4", "util/file.SaveBinary"); fn != nil {
+		ff := r.P.Facts(fn)
+		n := 0
+		for _, cs := range r.CallSites(fn, "util/file.writeFileSync") {
+			n++
+			t := ff.Term(cs.Common().Args[0])
+			r.Check("C20-R4", "util/file.SaveBinary: the temporary file is named <target> + \".tmp.\" + <hash prefix> (never ends with the target's extension)", r.P.Pos(cs.Pos()), glob(`(($0 + ".tmp.") + *[:8])`, t), t)
+		}
+		r.Check("C20-R4", "util/file.SaveBinary: temporary-file write sites", "", n == 1, "")
+	}
 }
